@@ -5,14 +5,14 @@ ID = "C15"
 HARNESS = "c15"
 N_CASES = {"quick": 220, "thorough": 6000}
 N_SEARCH = {"quick": 1, "thorough": 2}
-SHARD = 20
+SHARD = 40
 HAS_MODEL_OUT = True
 RULE = ("seeded histories (2-12 steps) of Add / Del / ExecuteBatch / Backup+Restore on a real RocksDB directory: "
         "small key and value alphabets (empty value, values that are prefixes of each other, values that look like the "
         "length framing, the empty key), batches with duplicate keys, deletions of what the same batch adds and of absent "
         "values (failing batches), batches of 13-40 pairs (sort.Slice beyond insertion sort), random long keys/values; "
         "after every step Find and ForEach on every key of the alphabet; "
-        "non-trivial = distinct (operation, map seen before it) pair in which the operation changes the map or fails")
+        "non-trivial = distinct history with at least one step that changes the map or fails (counted by the hash of those steps and the maps seen before them)")
 TRUSTED_BASE = [
     "RocksDB and cgo-rocksdb below Get/GetMulti/Put/Delete/WriteBatch (Get gives nil exactly for an absent key, a WriteBatch is atomic) are not modelled; the store is an abstract function key -> option bytes",
     "sort.Slice enters the proofs as a parameter that returns a permutation sorted by bytes.Compare (not stable); the model is evaluated with a stable sort and compared up to the order of one batch's additions to one key",
